@@ -149,14 +149,20 @@ def _chunk(params, lo, hi):
         fc = [float(v) for v in c]
         nontrivial = st != "OPTIMAL" or any(v < 0 for v in b) or (val is not None and val != 0)
         wit = {"c": [str(v) for v in c], "A": [[str(v) for v in row] for row in A], "b": [str(v) for v in b], "minimize": minimize}
-        for fname, fn, chk in (("solve_lp", solve_lp, check_simplex), ("solve_lp_interior", solve_lp_interior, check_interior)):
+        runs = [("solve_lp", solve_lp, check_simplex, {}), ("solve_lp_interior", solve_lp_interior, check_interior, {})]
+        if (idx + off) % 4 == 0:
+            # tiny iteration budgets: the answer may be MAX_ITER (exempt) but never a wrong verdict
+            runs += [("solve_lp", solve_lp, check_simplex, {"max_iter": k}) for k in (1, 2, 3)]
+        for fname, fn, chk, kw in runs:
             if solver != "both" and solver != fname:
                 continue
             r["n"] += 1
             if nontrivial:
                 r["nontrivial"] += 1
+            if kw:
+                wit = dict(wit, **kw)
             try:
-                res = gcall(lambda: fn(fc, fA, fb, minimize=minimize), 5.0, 50_000_000)
+                res = gcall(lambda: fn(fc, fA, fb, minimize=minimize, **kw), 5.0, 50_000_000)
             except Exception as ex:  # noqa: BLE001
                 r["outcomes"][fname + ":raised"] += 1
                 r["violations"].append(viol(fname, "raised", wit, f"{fname}(c={c}, A={A}, b={b}, minimize={minimize}): {type(ex).__name__}: {ex}"))
@@ -165,7 +171,7 @@ def _chunk(params, lo, hi):
             if res.status.name == "MAX_ITER" and fname == "solve_lp":
                 r["counters"]["simplex_max_iter_cycling_suspects"] += 1
             for kind, detail in chk(res, A, b, c, minimize, st, val):
-                r["violations"].append(viol(fname, kind, wit, f"{fname}(c={c}, A={A}, b={b}, minimize={minimize}): {detail}"))
+                r["violations"].append(viol(fname, kind, wit, f"{fname}(c={c}, A={A}, b={b}, minimize={minimize}{', ' + str(kw) if kw else ''}): {detail}"))
         if not r["samples"]:
             r["samples"].append(wit)
         if len(r["violations"]) >= 40 or too_many_hangs():
@@ -220,7 +226,8 @@ def replay(v):
     st, val = lpref.solve_exact(c, A, b, w["minimize"])
     fn, chk = (solve_lp, check_simplex) if v["function"] == "solve_lp" else (solve_lp_interior, check_interior)
     try:
-        res = fn([float(x) for x in c], [[float(x) for x in row] for row in A], [float(x) for x in b], minimize=w["minimize"])
+        kw = {"max_iter": w["max_iter"]} if "max_iter" in w else {}
+        res = fn([float(x) for x in c], [[float(x) for x in row] for row in A], [float(x) for x in b], minimize=w["minimize"], **kw)
     except Exception as ex:  # noqa: BLE001
         return {"function": v["function"], "kind": "raised", "detail": repr(ex)}
     errs = chk(res, A, b, c, w["minimize"], st, val)
